@@ -21,7 +21,7 @@ Judge(e) ==
                /\ Agree(Startup(b), o.startup)
                /\ Len(o.gets) = Len(e.args.ids)
                /\ \A i \in DOMAIN e.args.ids : Agree(GetModule(b, e.args.ids[i]), o.gets[i])
-               /\ ItersOK(Iter(b, 64), o.iter)
+               /\ ItersOK(Iter(b, 256), o.iter)
 Free(e) == FALSE
 Init == l = 1 /\ bad = <<>> /\ free = <<>>
 Next == /\ l <= Len(Rec)
